@@ -52,20 +52,21 @@ func init() {
 }
 
 type c14node struct {
-	st          *c14state
-	idx         int
-	mu          sync.Mutex
-	gen         map[int]int    // statement -> current generation
-	prepN       map[string]int // "ks|stmt" -> PREPARE count
-	failN       map[int]int    // statement -> remaining PREPAREs to fail
-	dropN       map[int]int    // statement -> remaining PREPAREs answered by dropping the connection
-	execN       map[int]int
-	forgetEvery map[int]int // statement -> forget it again after every this many EXECUTEs it served
-	servedN     map[int]int
-	forgetAfter map[int]int // statement -> forget the id after this many EXECUTEs (once)
-	delay       time.Duration
-	scripted    map[int]bool
-	hasDrop     bool
+	st              *c14state
+	idx             int
+	mu              sync.Mutex
+	gen             map[int]int    // statement -> current generation
+	prepN           map[string]int // "ks|stmt" -> PREPARE count
+	failN           map[int]int    // statement -> remaining PREPAREs to fail
+	dropN           map[int]int    // statement -> remaining PREPAREs answered by dropping the connection
+	execN           map[int]int
+	forgetEvery     map[int]int // statement -> forget it again after every this many EXECUTEs it served
+	servedN         map[int]int
+	failAfterForget bool
+	forgetAfter     map[int]int // statement -> forget the id after this many EXECUTEs (once)
+	delay           time.Duration
+	scripted        map[int]bool
+	hasDrop         bool
 }
 
 type c14state struct {
@@ -86,14 +87,24 @@ func (st *c14state) problem(key, what string) {
 	st.mu.Unlock()
 }
 
-func c14stmt(j int) string { return fmt.Sprintf("INSERT INTO t%d (tag, v) VALUES (?, ?)", j) }
+// Statements 2k and 2k+1 are different statements that differ only in the white space inside a string literal
+// (one blank or two): a cache key must tell them apart.
+func c14stmt(j int) string {
+	return fmt.Sprintf("INSERT INTO t%d (tag, v) VALUES (?, ?) IF note != 'a%sb'", j/2, strings.Repeat(" ", 1+j%2))
+}
 
 func c14stmtIdx(s string) int {
-	var j int
-	if _, err := fmt.Sscanf(s, "INSERT INTO t%d ", &j); err != nil {
+	var k int
+	if _, err := fmt.Sscanf(s, "INSERT INTO t%d ", &k); err != nil {
 		return -1
 	}
-	return j
+	switch {
+	case strings.HasSuffix(s, "IF note != 'a b'"):
+		return 2 * k
+	case strings.HasSuffix(s, "IF note != 'a  b'"):
+		return 2*k + 1
+	}
+	return -1
 }
 
 func (n *c14node) id(ks string, j, gen int) []byte {
@@ -187,6 +198,9 @@ func (n *c14node) handler(sc *fakenode.ServerConn, req *fakenode.Req) {
 			n.servedN[j]++
 			if n.servedN[j]%fe == 0 {
 				n.gen[j]++
+				if n.failAfterForget {
+					n.failN[j]++ // ... and refuses the next PREPARE of the statement it has just lost (e.g. its table is gone for a moment)
+				}
 			}
 		}
 		n.mu.Unlock()
@@ -299,6 +313,7 @@ func c14case(c *runner.Ctx, i int) {
 					n.forgetEvery[j] = 3 + r.Intn(6)
 					n.scripted[j] = true
 				}
+				n.failAfterForget = i%2 == 0
 			}
 			n.mu.Unlock()
 		}
@@ -341,6 +356,9 @@ func c14case(c *runner.Ctx, i int) {
 						var cancel context.CancelFunc
 						ctx, cancel = context.WithTimeout(ctx, time.Duration(1+rr.Intn(6))*time.Millisecond)
 						defer cancel()
+						if k == 0 && e%6 == 0 {
+							cancel() // this executor has given up before it even starts (it may still be the first to ask for the statement)
+						}
 					}
 					if version >= 2 && rr.Intn(5) == 0 {
 						b := sess.NewBatch(gocql.UnloggedBatch).WithContext(ctx)
@@ -363,7 +381,7 @@ func c14case(c *runner.Ctx, i int) {
 							c.Guard("Query.Exec", func() { err = q.Exec() })
 						}
 					}
-					if hasDeadline && err != nil && (errors.Is(err, context.DeadlineExceeded) || strings.Contains(err.Error(), "deadline exceeded")) {
+					if hasDeadline && err != nil && (errors.Is(err, context.DeadlineExceeded) || errors.Is(err, context.Canceled) || strings.Contains(err.Error(), "deadline exceeded") || strings.Contains(err.Error(), "context canceled")) {
 						// this caller's own deadline
 						atomic.AddInt64(&st.ownDeadline, 1)
 						continue
